@@ -124,7 +124,35 @@ func runC12(u *univ.Universe, tips map[string]int, trunk func(h int) int, cfg c1
 		for _, m := range c.mem {
 			bans = append(bans, m.ps.Bans()...)
 		}
-		return "c12:no-convergence", fmt.Sprintf("%v: after %v the members are on %v, the heaviest chain among them ends at %s (h%d); bans: %v", cfg, wait, got, u.Nodes[want].Label, u.Nodes[want].Height, bans)
+		sig := "c12:no-convergence"
+		// structural cause: a checkpoint-bootstrapped member is involved and no member's history sample (what
+		// it offers a peer to find the common block) contains a block of another member's best chain
+		ckpt, common := false, false
+		for _, sp := range specs {
+			ckpt = ckpt || sp.Checkpoint != 0
+		}
+		for _, a := range c.mem {
+			hist, _ := a.cm.History()
+			for _, b := range c.mem {
+				if a == b {
+					continue
+				}
+				for _, id := range hist {
+					if id == (types.BlockID{}) {
+						continue
+					}
+					if st, ok := b.cm.State(id); ok {
+						if idx, ok := b.cm.BestIndex(st.Index.Height); ok && idx.ID == id {
+							common = true
+						}
+					}
+				}
+			}
+		}
+		if ckpt && !common && len(bans) == 0 {
+			sig = "c12:no-convergence:no-common-block-in-history-samples"
+		}
+		return sig, fmt.Sprintf("%v: after %v the members are on %v, the heaviest chain among them ends at %s (h%d); bans: %v", cfg, wait, got, u.Nodes[want].Label, u.Nodes[want].Height, bans)
 	}
 	for _, m := range c.mem {
 		if v := m.audit(); v != "" {
@@ -413,6 +441,15 @@ func c12() {
 				cfgs = append(cfgs, c12cfg{U: "S", Tips: []string{mine, other}, Ckpt: []string{ck, ""}, Edges: [][2]int{{0, 1}}},
 					c12cfg{U: "S", Tips: []string{mine, other}, Ckpt: []string{ck, ""}, Edges: [][2]int{{1, 0}}})
 			}
+		}
+	}
+	// a genesis-synced member and a checkpoint-bootstrapped member whose common fork point lies above the
+	// checkpoint: forks of 5 blocks (inside the dense part of the history sample) and of 16 blocks
+	{
+		unis["K"] = build("K", 20, [][2]int{{20, 5}, {20, 16}, {20, 30}})
+		for _, mine := range []string{"B@20+5", "B@20+16"} {
+			cfgs = append(cfgs, c12cfg{U: "K", Tips: []string{mine, "B@20+30"}, Ckpt: []string{"", "T17"}, Edges: [][2]int{{0, 1}}},
+				c12cfg{U: "K", Tips: []string{mine, "B@20+30"}, Ckpt: []string{"", "T17"}, Edges: [][2]int{{1, 0}}})
 		}
 	}
 	// long universe: gaps across the 100-block request split and the history sample's exponential part
